@@ -214,13 +214,20 @@ func checkC08(w *World, r *Report) {
 	r.Rule("R08.10", "a comment ends at the first terminator after its opener: where the opener's tail can be read as the head of the terminator (\"/*\" then \"/\"), the terminator search starts after the whole opener", 2)
 	r.guard("R08.10", func() { c08CommentSearchStart(w, r, "R08.10") })
 
-	r.Rule("R08.11", "unquoted text is verbatim up to a real separator: the lexer's blank class is exactly {SP, TAB} and its line-break class exactly {CR, LF} (RFC 6020 §12 sep = WSP / line-break); no other character — NBSP, form feed, U+2009 … — ends or is dropped from an unquoted argument", 2)
+	r.Rule("R08.11", "unquoted text is verbatim up to a real separator: the lexer's blank class is exactly {SP, TAB} and its line-break class exactly {CR, LF} (RFC 6020 §12 sep = WSP / line-break); no other character — NBSP, form feed, U+2009 … — ends or is dropped from an unquoted argument", 1)
 	r.guard("R08.11", func() {
 		pe := NewPredEval(w, intDom{})
-		sp := pe.TrueSet(w.Func("parse", "isSpace")).(ISet)
-		r.Check(sp.equal(isetOf(' ', '\t')), "R08.11", "isSpace", token.NoPos, sp.String(), "the blank class is "+sp.String()+", RFC 6020 has {SP, TAB}: other characters inside an unquoted argument split it or are silently dropped")
-		el := pe.TrueSet(w.Func("parse", "isEndOfLine")).(ISet)
-		r.Check(el.equal(isetOf('\r', '\n')), "R08.11", "isEndOfLine", token.NoPos, el.String(), "the line-break class is "+el.String()+", RFC 6020 has {CR, LF}")
+		// the separator class as a whole, and its two halves where they exist as functions of their own
+		sep := pe.TrueSet(w.Func("parse", "isSep")).(ISet)
+		r.Check(sep.equal(isetOf(' ', '\t', '\r', '\n')), "R08.11", "isSep", token.NoPos, sep.String(), "the separator class is "+sep.String()+", RFC 6020 has {SP, TAB, CR, LF}: other characters inside an unquoted argument split it or are silently dropped")
+		if f := w.tryFunc("parse", "isSpace"); f != nil {
+			sp := pe.TrueSet(f).(ISet)
+			r.Check(sp.equal(isetOf(' ', '\t')), "R08.11", "isSpace", token.NoPos, sp.String(), "the blank class is "+sp.String()+", RFC 6020 has {SP, TAB}: other characters inside an unquoted argument split it or are silently dropped")
+		}
+		if f := w.tryFunc("parse", "isEndOfLine"); f != nil {
+			el := pe.TrueSet(f).(ISet)
+			r.Check(el.equal(isetOf('\r', '\n')), "R08.11", "isEndOfLine", token.NoPos, el.String(), "the line-break class is "+el.String()+", RFC 6020 has {CR, LF}")
+		}
 	})
 
 	r.Rule("R08.12", "indentation is removed up to and including the column of the opening quote: the test that ends the stripping of a continuation line is `columns so far >= quote column` (reaching the column exactly ends it; what follows, a tab included, is kept verbatim)", 1)
